@@ -16,7 +16,8 @@ DECIDED = ("R9.1 in every checked (safe) public install root the installation is
            "`fn() -> Poll<T>` over the same T, and a future of another output type is rejected by rustc (compile-fail witness E0271 with a "
            "compiling twin); R9.6 over a family of 14 fn-pointer types differing in arity, one parameter type, return type, reference/pointer "
            "mutability, unsafety and ABI, the strings rustc's own type_name implementation renders (taken from the compiler at check time, not by "
-           "running code) are pairwise different, and identical types written for different functions/closures render identically")
+           "running code) are pairwise different, and identical types written for different functions/closures render identically"
+           " A checked call that returns normally without any effect must also have passed the signature equality on its equal edge (a replacement of a different type is refused with a panic, not ignored).")
 NOT_DECIDED = ("injectivity of std::any::type_name outside the checked family (it is decided on the family of R9.6 with the compiler's own renderer; "
                "other type pairs remain an assumption)")
 
